@@ -15,6 +15,16 @@ CLAIMED = {
         "text": "For every raise site of the reader (invalid row, decode error, converter failure) the enclosing try/with chain and every strong call path up to read_swc / Tree.from_swc / LazyLoadingTrees is walked: no context manager whose __exit__ can return a truthy value, no handler that completes without raising. All CFG paths through the per-line loop body are enumerated and classified (row / comment / raise / blank / filtered header); an effect-free path is a violation. This is the 'never returns a shortened table' clause for every position of a bad line.",
         "note": ASSUME,
     },
+    "C04": {
+        "technique": "call-graph cycle check (receiver-class-sensitive) + frame-discipline rules on the DFS kernel's AST",
+        "text": "Recursion-freedom of everything strongly reachable from swc_utils.traverse, Tree.traverse and Tree.Node.traverse (callbacks excluded as user code) gives a constant interpreter stack depth at any tree depth. The explicit-stack kernel is checked for the obligations that make it structural recursion: LIFO pop, leave frame pushed below the child frames, exactly one enter and one leave call site per frame outside inner loops, the child receives the value its parent's enter returned, leave receives one popped value per child from the same child list, the start node's value is returned, children map keyed by parent id; the Tree/Node wrappers forward both callbacks and the root.",
+        "note": ASSUME,
+    },
+    "C05": {
+        "technique": "AST def-use rules on the renumbering kernel (counter discipline, uniform gather) + call-graph cycle check",
+        "text": "The permutation computed by one sort_nodes_impl call is applied to the whole key set of the table / tree (df.columns, every ndata key: extra columns are carried) and ids/parent ids are overwritten by that call's new topology; in the kernel one pop fills one slot, the id counter is read for the slot and as the children's new parent before its single unconditional +1 and is never decreased (hence parent id < child id and ids 0..n-1), children are the rows whose parent id equals the popped id, and the row index is old-id -> old-position through a dict (ids never index arrays). Recursion-free.",
+        "note": ASSUME,
+    },
 }
 
 NOT_BUILT = "check not built yet in this round (planned, see DESIGN.md section 4); nothing is claimed"
